@@ -47,7 +47,11 @@ def _pp(mix, case, y, partition):
 def check(case):
     from pyvaporation.mixtures import get_partial_pressures
 
-    pv, mix = make_pv(case)
+    mix0 = build.mixture(case["mixture"])
+    u = case["units"]  # membrane experiments stated in the case's unit, exactly at the feed temperature
+    mspec = {"name": "M", "e1": [{"T": case["T"], "value": convert_units(case["p1"], build.KG, u, mix0.first_component.molecular_weight), "units": u, "Ea": 20000.0}],
+             "e2": [{"T": case["T"], "value": convert_units(case["p2"], build.KG, u, mix0.second_component.molecular_weight), "units": u, "Ea": 30000.0}]}
+    pv, mix = make_pv(case, mspec)
     comps = (mix.first_component, mix.second_component)
     mode = case["perm"]["mode"]
     perms = (case["p1"], case["p2"])
@@ -134,7 +138,7 @@ def check(case):
         for k, j in enumerate(fluxes):
             tot = abs(j[0]) + abs(j[1])
             for i in (0, 1):
-                require(abs(float(ideal.partial_fluxes[k][i]) - j[i]) <= 1e-9 * abs(j[i]) + 1e-12 * tot,
+                require(abs(float(ideal.partial_fluxes[k][i]) - j[i]) <= 1e-9 * abs(j[i]) + 1e-11 * tot,
                         "ideal_diffusion_curve at precision %r: flux %d at point %d is %r, the flux calculation at that precision gives %r",
                         case["precision"], i + 1, k, float(ideal.partial_fluxes[k][i]), j[i])
                 if math.isfinite(curve.permeances[k][i].value) and curve.permeances[k][i].value > 0:
